@@ -99,3 +99,11 @@ func VerifNegotiate(g *oc.Global, n *oc.Neighbor, open *bgp.BGPMessage, prev *bg
 }
 
 func VerifBuildOpen(g *oc.Global, n *oc.Neighbor) *bgp.BGPMessage { return buildopen(g, n) }
+
+// VerifIsDominant: the collision decision of a fresh fsm for a received OPEN (true: the connection we opened survives).
+func VerifIsDominant(g *oc.Global, n *oc.Neighbor, open *bgp.BGPMessage) bool {
+	lg := slog.New(slog.NewTextHandler(io.Discard, nil))
+	f := newFSM(g, n, bgp.BGP_FSM_OPENSENT, lg)
+	defer f.outgoingCh.Close()
+	return f.isDominant(open.Body.(*bgp.BGPOpen))
+}
